@@ -40,7 +40,7 @@ class C09(Check):
                "delete_current_checked": 3, "writes_monitored": 100, "readds_of_referenced_file": 3}
 
     def gen_cases(self, tier: str, seed: int):
-        n = 160 if tier == "quick" else 1600
+        n = 160 if tier == "quick" else 12000
         for i in range(n):
             yield {"i": i, "seed": seed, "backend": "s3" if i % 4 == 3 else "local",
                    "clock": ["real", "coarse", "real", "stepback", "coarse", "backwards"][i % 6]}
